@@ -216,6 +216,32 @@ func ruleLineFraming(w *World, r *Report, rule string) {
 		}
 		r.Check(bad == "", rule, pr[0]+":order-kept", posOf(w, f), fmt.Sprintf("%d functions on this end of the protocol, none reorders the list", len(scope)), pr[0]+" reorders the names ("+bad+"): the list read through the server comes in another order than the one filepath.Glob gives for the directory, so commands visit and print the files in a different order")
 	}
+	// the clients read the response to its end: what is decoded is ReadAll of the response body itself
+	for _, cl := range []string{"globItemsRemote", "globFilesRemote", "getFileDataFromRemote", "getRawFileDataFromRemote"} {
+		f := fn(w.Cmd, cl)
+		if f == nil {
+			continue
+		}
+		bad := ""
+		n := 0
+		for g := range moduleReachable(w, []*ssa.Function{f}, nil) {
+			if g.Pkg != w.Cmd {
+				continue
+			}
+			for _, c := range callsIn(g) {
+				switch {
+				case isCallToPkgFunc(c, "io", "LimitReader"), isCallToPkgFunc(c, "net/http", "MaxBytesReader"), isCallToPkgFunc(c, "io", "CopyN"):
+					bad = "the response is read through a size limit (" + w.instrPos(c) + ")"
+				case isCallToPkgFunc(c, "io", "ReadAll"), isCallToPkgFunc(c, "io/ioutil", "ReadAll"):
+					n++
+					if a := newExprCtx(w).expr(c.Common().Args[0]); !strings.HasSuffix(a, ".Body") && bad == "" {
+						bad = "ReadAll at " + w.instrPos(c) + " reads " + shortExpr(a) + ", not the response body itself"
+					}
+				}
+			}
+		}
+		r.Check(bad == "" && n > 0, rule, cl+":reads-whole-body", posOf(w, f), "decodes ReadAll(resp.Body)", cl+": "+bad+": a long listing or series is cut without an error and the command works on a part of it (the last name a fragment)")
+	}
 	for _, cl := range []string{"globItemsRemote", "globFilesRemote"} {
 		f := fn(w.Cmd, cl)
 		if f == nil {
